@@ -13,7 +13,7 @@ TYPE_NAMES = [
 
 INT_KINDS = "irgud"
 STR_KINDS = "SsltbwC"  # C is not a kind; placeholder so that 'c' is handled separately
-ALL_KINDS = ["i", "r", "g", "u", "d", "c", "S", "s", "l", "t", "b", "w", "e", "p", "q"]
+ALL_KINDS = ["i", "r", "g", "u", "d", "c", "S", "s", "l", "t", "b", "w", "e", "p", "q", "o", "y"]
 PREFIX_TEXTS = ["abcdef", "x::y::z", "1000", "aaaa", "\u00fcber"]
 
 
@@ -60,6 +60,9 @@ def gen_args(rng, kind, n):
         return [s + i for i in range(n)]
     if kind == "u":
         return [rng.choice([0, 1, 2, 9, 10, 11, 99, 100, 255, rng.randrange(256)]) for _ in range(n)]
+    if kind in "oy":
+        # hand-written ToString (no Display) / Display, each beside a different Debug: the values are the expected labels
+        return [("own%d" if kind == "o" else "disp%d") % rng.choice([0, 1, 2, 10, 9, -3, 100, 42]) for _ in range(n)]
     if kind in "pq":
         # prefixes of one text (including the empty one, repeated lengths)
         t = rng.choice(PREFIX_TEXTS)
